@@ -1492,8 +1492,9 @@ end C07
   `Hal.cnvApplyCol` of the prepared (masked, zero-filled) operands, on both back ends, inside explicit domains
   (`VmpDomain` resp. `LaneDomainAvx` for every number of accumulated products `R ≤ min(sizeL, sizeR)`), numeric tables included;
   `fft64_cnv_ref_avx_agree`: the two back ends return the same column.
-* `fft64avx_cnv_by_const_eq_ref` / `…_counterexample`: the `i64` by-constant convolution of FFT64Avx (`_mm256_mul_epi32`)
-  equals FFT64Ref exactly when every operand fits in `i32`, and differs at `3000000000 · 3`.
+* `fft64avx_cnv_by_const_eq_ref`: the `i64` by-constant convolution of FFT64Avx equals FFT64Ref on **all** inputs since patch 34
+  (`mul_i64_wrapping_avx2`; the lane lemma is C10's `mul64_lanes_eq_wrapping_mul`); `…_old_lane_counterexample` documents the
+  repaired defect: the `_mm256_mul_epi32` lane of the pinned tree is wrong at `3000000000 · 3`.
 -/
 
 namespace C07
@@ -1624,17 +1625,20 @@ theorem fft64_cnv_ref_avx_agree (K : Nat) (hK2 : 2 ≤ K) (hK : K ≤ 15) (omg i
   exact ⟨fft64avx_cnv_matches_spec K hK2 omg iomg τ51 Ma Mb rs off sl sr ml mr a b hacc hsl hsr hrawA hrawB hA hB dA,
     cnv_ref_avx_agree K hK2 omg iomg τ51 Ma Mb rs off sl sr ml mr a b hacc hsl hsr hrawA hrawB hA hB dR dA⟩
 
-/-- **by-constant convolution (`i64`)**: FFT64Avx = FFT64Ref when every limb coefficient and every constant fits in `i32` -/
-theorem fft64avx_cnv_by_const_eq_ref (K rs off : Nat) (a : Col) (b : List Int)
-    (ha : ∀ j i, -(2 ^ 31) ≤ (limbOr0 (2 * 2 ^ K) a j).getD i 0 ∧ (limbOr0 (2 * 2 ^ K) a j).getD i 0 < 2 ^ 31)
-    (hb : ∀ j, -(2 ^ 31) ≤ b.getD j 0 ∧ b.getD j 0 < 2 ^ 31) :
-    cnvByConst true K rs off a b = cnvByConst false K rs off a b := cnvByConst_avx_eq_ref K rs off a b ha hb
+/-- **by-constant convolution (`i64`)**: FFT64Avx = FFT64Ref on every input (patch 34: both back ends form `wrapping_mul` products;
+that the three-`_mm256_mul_epu32` lane *is* `wrapping_mul` is C10's `mul64_lanes_eq_wrapping_mul` /
+`fft64avx_cnv_by_const_eq_ref_all_inputs`) -/
+theorem fft64avx_cnv_by_const_eq_ref (K rs off : Nat) (a : Col) (b : List Int) :
+    cnvByConst true K rs off a b = cnvByConst false K rs off a b := cnvByConst_avx_eq_ref K rs off a b
 
-/-- … and **differs outside**: `3000000000 · 3` (`_mm256_mul_epi32` multiplies the sign-extended low 32 bits; the HAL entry point
-`cnv_by_const_apply` does not state the `i32` restriction) -/
-theorem fft64avx_cnv_by_const_counterexample :
-    cnvByConst true 2 1 0 [[3000000000, 1, -3000000000, 5, 6, 7, 8, 9]] [3] ≠
-    cnvByConst false 2 1 0 [[3000000000, 1, -3000000000, 5, 6, 7, 8, 9]] [3] := cnvByConst_avx_counterexample
+/-- the lane of the pinned tree (`_mm256_mul_epi32`: sign-extended low 32 bits) agreed with `wrapping_mul` on `i32` operands only -/
+theorem fft64avx_cnv_by_const_old_lane_eq (a b : Int) (ha : -(2 ^ 31) ≤ a ∧ a < 2 ^ 31) (hb : -(2 ^ 31) ≤ b ∧ b < 2 ^ 31) :
+    byConstTermOldLane a b = byConstTerm true a b := byConstTermOldLane_eq a b ha hb
+
+/-- … and **differed outside** (documentation of the repaired defect): `3000000000 · 3` gave `−3884901888` -/
+theorem fft64avx_cnv_by_const_old_lane_counterexample :
+    byConstTermOldLane 3000000000 3 = -3884901888 ∧ byConstTerm true 3000000000 3 = 9000000000 ∧
+    byConstTermOldLane 3000000000 3 ≠ byConstTerm true 3000000000 3 := byConstTermOldLane_counterexample
 
 /-! ### pairwise convolution `(a_i + a_j)·(b_i + b_j)` -/
 
@@ -1767,7 +1771,8 @@ example : PrepOKA 2 4096 (cnvPrepareCol 8 2 (-4) [[-5, 4095, 0, 0, 0, 0, 0, 1], 
 example : caddmulLaneAvx (0x3FF0000000000000, 0x3FF0000000000000) (0x3FF0000000000001, 0x3FF0000000000001) (0x3FF0000000000001, 0x3FE6A09E667F3BCD) ≠
     caddmul (0x3FF0000000000000, 0x3FF0000000000000) (0x3FF0000000000001, 0x3FF0000000000001) (0x3FF0000000000001, 0x3FE6A09E667F3BCD) := by
   decide +kernel
-example : lo32 3000000000 = -1294967296 ∧ byConstTerm true 3000000000 3 = -3884901888 ∧ byConstTerm false 3000000000 3 = 9000000000 := by
+example : lo32 3000000000 = -1294967296 ∧ byConstTermOldLane 3000000000 3 = -3884901888 ∧ byConstTerm true 3000000000 3 = 9000000000 ∧
+    byConstTerm false 3000000000 3 = 9000000000 ∧ byConstTerm true (2 ^ 62) 6 = -(2 ^ 63) := by
   decide +kernel
 
 example : okOr (cnvPairwise refOps 2 omg4 iomg4 2 0 1 1 (-1) (-1) [[4095, -4095, 1, 0, 7, -9, 1000, 4095]] [[1, 2, 3, 4, 5, 6, 7, -4095]]
@@ -1784,8 +1789,7 @@ example : VmpDomain 2 1 τ50 (2 * 4096) (2 * 4096) ∧ LaneDomainAvx 2 1 τ50 (2
    (fft64_cnv_pairwise_domain_numeric 2 le_rfl (by norm_num) 1 le_rfl (by norm_num) 4096 4096 (by norm_num) (by norm_num)).2 (by unfold domBitsPA; norm_num)⟩
 
 /-- **`cnv_by_const_apply` on FFT64Ref = the specification with the `i64` wrap** (`Hal.cnvByConstCol w64`): wrapping every product
-and every partial sum equals wrapping the exact sum once; with `fft64avx_cnv_by_const_eq_ref` the same holds for FFT64Avx when all
-operands fit `i32` -/
+and every partial sum equals wrapping the exact sum once; with `fft64avx_cnv_by_const_eq_ref` the same holds for FFT64Avx -/
 theorem fft64_cnv_by_const_matches_spec (K rs off : Nat) (a : Col) (b : List Int) (hK2 : 2 ≤ K)
     (ha : ∀ l ∈ a, l.length = 2 * 2 ^ K) (ha0 : a.length ≠ 0) (hb0 : b.length ≠ 0) :
     cnvByConst false K rs off a b = .ok (cnvByConstCol w64 (2 * 2 ^ K) rs off a b) := by
@@ -1798,5 +1802,9 @@ example : cnvByConst false 2 2 0 [[3000000000, 1, -3000000000, 5, 6, 7, 8, 92233
   fft64_cnv_by_const_matches_spec 2 2 0 _ _ le_rfl (by decide) (by decide) (by decide)
 example : cnvByConstCol w64 8 2 0 [[3000000000, 1, -3000000000, 5, 6, 7, 8, 9223372036854775807]] [3, -2] =
     [[9000000000, 3, -9000000000, 15, 18, 21, 24, 9223372036854775805], [-6000000000, -2, 6000000000, -10, -12, -14, -16, 2]] := by decide +kernel
+
+example : cnvByConst true 2 1 0 [[3000000000, 1, -3000000000, 5, 6, 7, 8, 9]] [3] =
+    .ok (cnvByConstCol w64 8 1 0 [[3000000000, 1, -3000000000, 5, 6, 7, 8, 9]] [3]) := by
+  rw [fft64avx_cnv_by_const_eq_ref]; exact fft64_cnv_by_const_matches_spec 2 1 0 _ _ le_rfl (by decide) (by decide) (by decide)
 
 end C07
